@@ -16,12 +16,17 @@ PROP = dict(
          "statement itself with a reference map on every file (and on the model writer's bytes fed to the real Trie), rebuilds every "
          "input twice (same order; keys regrouped in another order) for byte identity, sends every seventh input through "
          "build(path)/Trie::open(path), and runs a separate counted stream of entry sets at and beyond the 16-bit limits "
-         "(generator_stats limits_*; thorough tier: 65535 children = 131072 index records)",
+         "(generator_stats limits_*; thorough tier: every Syllable value as a child of one node, 147832 index records). Keys hold "
+         "valid syllable codes only (generator_stats key_syllables_*), boundary values included; every fifth written file is also fed "
+         "to Trie::new with one node syllable replaced by a value Syllable::try_from rejects (must be refused; the model's openTrie "
+         "agrees: `codec about … => err`) and by another valid code (must open; about/entries compared)",
     trusted_base=["the `der` crate (0.7) is modelled for the eight shapes the trie format uses (Model/Der.lean) and `slice::sort_by` "
                   "as a stable insertion sort; both are tied to the code by the byte-for-byte correspondence only",
                   "the builder arena is modelled as the tree it represents (first-child/next-sibling); arena ids are not observable "
                   "in the output"],
-    assumptions=["inputs as the Rust types constrain them: strings of Unicode scalar values, non-zero u16 syllables, u32 frequency, "
+    assumptions=["inputs as the Rust types constrain them: strings of Unicode scalar values, syllables that are `Syllable` values "
+                 "(since the repair of C13's F47: non-zero u16 codes Syllable::try_from accepts — `validCode` in ValidEntry; the type "
+                 "invariant of the `&[Syllable]` key of insert, queries need only be non-zero), u32 frequency, "
                  "optional u64 timestamp; lookup_all_phrases is lookup_first_n_phrases with first = usize::MAX, where the cut-off "
                  "`result.len() > first` and `result.truncate(first)` cannot fire (the model's lookupAll omits them; lookupFirstN "
                  "models both for every other n)",
@@ -46,7 +51,10 @@ MANIFEST = dict(
          "the BFS loop invariant (bfs_layout), refinement of the reader to a walk on the builder tree, and the explicit-stack DFS of "
          "entries(). `validate_write`: the index of every written file passes the structural check Trie::new performs since the repair "
          "of C12's F16/F17 (validate_index — the model's openTrie ends with it; the scan follows the BFS emission order and its `next` "
-         "is the writer's child_begin), so read_write/C11 hold unchanged; Conforms includes the BFS-order clause. "
+         "is the writer's child_begin), so read_write/C11 hold unchanged; Conforms includes the BFS-order clause. Keys are `Syllable` "
+         "values = valid codes since the repair of C13's F47 (ValidEntry); validate_index's new syllable check on node records is "
+         "covered by validate_write (`writeLoop_syls`), the `try_from(..).unwrap()` of entries() and the fuzzy predicate's "
+         "`if let Ok(..) = try_from(n)` are modelled with validCode and cannot fail on a written file. "
          "`writes_within_limits`: inside the 16-bit/256 MiB limits write succeeds. NOT a theorem: that the bytes depend "
          "only on the per-key phrase vectors and not on the order in which keys were first inserted (`deterministic` is the literal "
          "'equal input, equal bytes'); this is checked by the oracle on regrouped inputs. Tie: trie.asn1 / trie.rs constants "
